@@ -1,4 +1,4 @@
 SPECIFICATION LSpec
 CONSTANTS Ids = {1,2,3} SDom <- SDomMid IDom <- IDomMid
-INVARIANTS Boolean Comparisons Membership Ordering Paging Aggregates
+INVARIANTS Boolean Comparisons Membership Arrays Ordering Paging Aggregates
 CHECK_DEADLOCK FALSE
